@@ -351,7 +351,8 @@ class C20(Prop):
         if r < 0.75:
             return mk(rnd.choice(["list", "tuple"]), items=[self.rval(rnd, depth + 1) for _ in range(rnd.randint(0, 3))])
         if r < 0.85:
-            ks = rnd.sample(["k", "m", "a b", "c-d"], rnd.randint(0, 3))
+            # (keys that mean something special as TOP-LEVEL props are ordinary keys inside a dict value)
+            ks = rnd.sample(["k", "m", "a b", "c-d", "style", "class_", "children", "className"], rnd.randint(0, 3))
             return {"p": "dict", "v": [], "items": [{"k": cps(k), "val": self.rval(rnd, depth + 1)} for k in ks]}
         if depth > 0:
             # inside a list/dict value only tags and components are written as elements (values inside
